@@ -122,13 +122,21 @@ def run_case(ctx, rep, case, base, model_ok):
         names[0] = p_final[1]
     for k, (_i, n) in enumerate(flips):
         names[k + 1] = n
-    versions = []
-    for n in names:
-        v = reader.view(store, n)
-        versions.append({"has": v["cur"] not in (None, -1), "rows": v["rows"]})
-    rep.evaluations += 1
     case_rec = {"kind": "readers-writers", "writers": case["writers"], "readers": case["readers"], "start_empty": case["start_empty"],
                 "schedule": [str(x) for x in S.schedule]}
+    versions = []
+    for n in names:
+        try:
+            v = reader.view(store, n)
+        except reader.Broken as e:
+            # no collection ran in this case: a version that was current during the run must still be readable afterwards —
+            # a reader that resolved it a moment ago is still opening its files
+            rep.violate("C02:files-of-a-version-current-during-the-run-are-gone",
+                        f"version {n} was current during the run; with no collection having run, reading it now fails: {e}", case_rec)
+            shutil.rmtree(path, ignore_errors=True)
+            return
+        versions.append({"has": v["cur"] not in (None, -1), "rows": v["rows"]})
+    rep.evaluations += 1
     rep.distribution[f"w={len(case['writers'])} r={len(case['readers'])}"] += 1
     # ---- each read: pointer reads → timeline positions
     def pos_of(event_index):
